@@ -282,3 +282,7 @@ CLAUSES += [
                 "non-trivial: a query after an in-place edit"),
 ]
 KNOWN_PREDICATES = {}
+
+# coverage-guided second driver (atheris / libFuzzer through Hypothesis' fuzz_one_input) for the core clauses: (clause, quick runs, thorough runs)
+from harness.covfuzz import cov_clauses  # noqa: E402
+CLAUSES += cov_clauses('C11', CLAUSES, [('simulate', 2000, 40000)])
